@@ -132,3 +132,60 @@ spec fn logged(old: &State, new: &State, sfx: Seq<ReverseStep>) -> bool {
 spec fn insn_ext(old: &State, new: &State, n: nat) -> bool {
     forall|a: State, k: nat| #[trigger] rev_w(&a, old, k) ==> insn_rev(&a, new, k + n)
 }
+
+// ================= per-opcode meaning of the control opcodes (C01 layer 3) =================
+spec fn jump_to(rel: RelativeJump, ip: usize) -> usize { ((ip + rel.0) as isize) as usize }
+
+// truth value of a condition cell (Cell::cond_true): nil and false are false
+spec fn cond_of(c: Cell) -> Option<bool> {
+    match strip(c) { Cell::Nil => Some(false), Cell::Flag(b) => Some(b), _ => None }
+}
+
+// What a control instruction that completed did to the machine.  Loads/stores/native calls are
+// covered by the contracts of the primitives they consist of; Resolve re-dispatches.
+spec fn exec_ok(old: &State, new: &State) -> bool {
+    let ip = old.ctx.ip;
+    let m = old.mach();
+    let n = new.mach();
+    match old.code@[ip as int] {
+        Opcode::Nop => n == (Mach { ip: (ip + 1) as usize, ..m }),
+        Opcode::Jump(rel) => n == (Mach { ip: jump_to(rel, ip), ..m }),
+        Opcode::JumpIf(rel) => m.ds.len() > old.ctx.ds_len && cond_of(m.ds.last()) is Some
+            && n == (Mach { ip: if cond_of(m.ds.last())->0 { jump_to(rel, ip) } else { (ip + 1) as usize }, ds: m.ds.drop_last(), ..m }),
+        Opcode::JumpIfNot(rel) => m.ds.len() > old.ctx.ds_len && cond_of(m.ds.last()) is Some
+            && n == (Mach { ip: if !cond_of(m.ds.last())->0 { jump_to(rel, ip) } else { (ip + 1) as usize }, ds: m.ds.drop_last(), ..m }),
+        Opcode::Call(a) => n == (Mach { ip: a, rs: m.rs.push(FrameV { fn_addr: a, return_to: (ip + 1) as usize, locals: Seq::empty() }), ..m }),
+        Opcode::Ret => m.rs.len() > old.ctx.rs_len
+            && n == (Mach { ip: m.rs.last().return_to, rs: m.rs.drop_last(), ..m }),
+        // do ( limit start -- ): an empty range pushes no loop frame and skips the body
+        Opcode::Do(rel) => m.ds.len() - old.ctx.ds_len >= 2 && ({
+            let start = strip(m.ds[m.ds.len() - 1]);
+            let limit = strip(m.ds[m.ds.len() - 2]);
+            start is Int && limit is Int && ({
+                let s = start->Int_0 as isize;
+                let l = limit->Int_0 as isize;
+                let ds2 = m.ds.drop_last().drop_last();
+                if s < l {
+                    n == (Mach { ip: (ip + 1) as usize, ds: ds2, ls: m.ls.push(Loop { items: NIL, range: Range { start: s, end: l } }), ..m })
+                } else {
+                    n == (Mach { ip: jump_to(rel, ip), ds: ds2, ..m })
+                }
+            })
+        }),
+        // loop: advance the index; jump back while the range is not exhausted, otherwise drop the
+        // loop frame (a terminated counted loop leaves no index behind) and fall through
+        Opcode::Loop(rel) => m.ls.len() > old.ctx.ls_len && ({
+            let l = m.ls.last();
+            let r2 = range_next(l.range);
+            if r2.start < r2.end {
+                n == (Mach { ip: jump_to(rel, ip), ls: m.ls.update(m.ls.len() - 1, Loop { items: l.items, range: r2 }), ..m })
+            } else {
+                n == (Mach { ip: (ip + 1) as usize, ls: m.ls.drop_last(), ..m })
+            }
+        }),
+        // break: leaves the loop, its frame is dropped
+        Opcode::Break(rel) => m.ls.len() > old.ctx.ls_len
+            && n == (Mach { ip: jump_to(rel, ip), ls: m.ls.drop_last(), ..m }),
+        _ => true,
+    }
+}
